@@ -22,6 +22,10 @@ CHECKS['C13'] = dict(engine='W-loop', level='exploration', design='5/C13',
    text='seeded search: the same logical client byte stream (text, CR LF/CR NUL, backspace/delete, IAC commands, sub-negotiations incl. oversized, bursts, hostile floods) is sent by 2-3 clients under different recv() segmentations (all at once, byte by byte, random cuts) to the real get_user_data/copy_chars/telnet_neg on telnet, ASCII and binary ports and the console; oracles: delivered command lines equal the lines of the logical item list (strict classes), are identical across segmentations (all classes but hostile), contain no negotiation bytes, input buffer indices stay in bounds, sanitizers clean. Sampling, not proof.',
    note='recv()/epoll are a model; strict expectations exclude inputs whose result the property leaves open (empty lines, lone CR, bare LF on telnet, bytes after IAC AYT/IP/BREAK/AO)',
    technique='deterministic simulation with fault injection (seeded recv segmentation of one logical stream, differential and model oracles)')
+CHECKS['C10'] = dict(engine='W-loop', level='exploration', design='5/C10',
+   text='seeded search over call_out/remove_call_out/find_call_out histories (by name, by handle, function-pointer form; issued at top level and from inside callbacks; delays around the 32-slot wheel; owners destructed; errors in callbacks) crossed with tick spacings of 1, 2, 3, 5-90 s and stalls with coalesced timer expiries, executed by the real call_out.c and backend tick path under a virtual clock; oracle: reference scheduler (exactly once, at the first tick at or after the due second and never before, time-left answers, removed/destructed never fire, errors isolate). Sampling, not proof.',
+   note='reference clock is the driver clock as LPC time() reports it; the API cannot distinguish -1 seconds left from not found: such answers are accepted either way',
+   technique='deterministic simulation with fault injection (virtual clock and timer, seeded call_out histories, reference scheduler oracle)')
 PENDING = 'check not built yet (work in progress, see DESIGN.md section 10)'
 
 def main():
